@@ -238,13 +238,21 @@ inline int harness_main(int argc, char **argv, const char *name, CaseFn fn) {
         alarm((unsigned)a.watchdog);
         try {
             fn(a, idx, wantDesc, r);
-        } catch (vpsc::CriticalFailure &e) {
+        }
+#ifndef NDEBUG
+        catch (vpsc::CriticalFailure &e) {
             r.c15.push_back({assert_key(e.what()), JObj().str("what", e.what()).str("stage", (const char *)g_stage).done()});
             if (r.inconclusive.empty()) r.inconclusive = "library-assertion";
-        } catch (std::bad_alloc &) {
+        }
+#endif
+        catch (std::bad_alloc &) {
             r.inconclusive = "bad_alloc";
         } catch (std::exception &e) {
             r.c15.push_back({std::string("exception:") + short_what(e.what()), JObj().str("what", e.what()).str("stage", (const char *)g_stage).done()});
+            if (r.inconclusive.empty()) r.inconclusive = "library-exception";
+        } catch (const char *) {
+            // libvpsc's IncSolver::satisfy throws (char*) of a destroyed temporary: the text must not be read
+            r.c15.push_back({"exception:char*", JObj().str("what", "char* exception (text not readable: it points into a destroyed temporary)").str("stage", (const char *)g_stage).done()});
             if (r.inconclusive.empty()) r.inconclusive = "library-exception";
         }
         alarm(0);
